@@ -1,11 +1,13 @@
-from .common import verify_T
+"""C01: Orthonormalization never changes the represented state or operator"""
+from .common import deductive_all
 
 LEVEL = 'other'
-EXPLANATION = ('Mixed: contract obligations on the real AST are discharged deductively for all inputs (exact arithmetic); '
-               'the floating-point statement and the clauses listed under not_proved are decided by the bounded stand-in only.')
-ASSUMPTIONS = ['np.linalg.qr contract (DESIGN 3.2)', 'K_qr factorization clauses (Q R = A, Q^H Q = I) are used as callee contract; '
-               'C11 proves them only in part']
+EXPLANATION = ('Mixed level. Contract obligations generated from the real AST of the functions this property depends on are '
+               'discharged deductively for all inputs in exact arithmetic (engines Z/T/F/L, see obligation_list); every clause of the '
+               'property that those obligations do not reach, and all floating-point behaviour, is decided by the bounded run-time '
+               'stand-in (engine R), which is labelled bounded and never counted as proved. See DESIGN.md section 5, C01.')
+ASSUMPTIONS = []
 NOT_PROVED = []
 
 def deductive(tier):
-    return verify_T('C01')
+    return deductive_all('C01', tier)
